@@ -195,7 +195,7 @@ def run(ctx):
                 continue
             bs = paramiko.Transport._cipher_info[c]["block-size"] if c else 8
             window = list(range(0, 4 * bs + 9))
-            run_suite(ctx, rng, i, c, m, comp, window, sample=(i % 23 == 1), window=True)
+            run_suite(ctx, rng, i, c, m, comp, window, sample=len(ctx.samples) < 3, window=True)
             ctx.count("window_suites_enumerated")
     ctx.count("exhaustive_window_complete")
     ctx.require("window_suites_enumerated", 2 * len(suites))
